@@ -1,4 +1,4 @@
-import Sop.Model.ValuePlacement
+import Sop.Model.ValuePlacementX
 import Sop.Driver.Util
 /-! Line protocol of C19 (see harness/cmd/c19/main.go).
 
@@ -9,7 +9,10 @@ import Sop.Driver.Util
     ups k tok len [ev a:k | ev u:k]    -> 1 | 0
     rm k [ev r:s]                      -> 1 | 0      (s = key of the item handed to tracker.Remove; s = k since
                                                       /repo a8e6b837, anything else is annotated as a deviation)
-    commit | rollback                  -> ok
+    upk k [ev u:k]                     -> 1 | 0      UpdateKey: key-only update, the value is not fetched
+    gupk k [ev g:k u:k]                -> 1 | 0      Find + GetCurrentValue + UpdateCurrentKey
+    park | resume                      -> ok         the open transaction is put aside while a rival transaction runs
+    commit [retry=n] | rollback        -> ok         retry=1: the commit went through one conflict / refetch-and-merge round
     dump                               -> count=<n> k=tok:len … (k=! unreadable)
     disk                               -> k:i=tok:len | k:b=tok:len | k:b=missing | k:n … vblobs=<n>
 
@@ -26,10 +29,10 @@ def placementOf (s : String) : Placement :=
   else if s == "active" then ⟨false, true, false⟩
   else ⟨false, true, true⟩
 
-def reset (hdr : List String) : St :=
+def reset (hdr : List String) : XSt :=
   match hdr with
-  | _ :: p :: rest => { place := placementOf p, trackRemoves := rest.contains "rmtracked=1" }
-  | _ => { place := ⟨true, false, false⟩ }
+  | _ :: p :: rest => { s := { place := placementOf p, trackRemoves := rest.contains "rmtracked=1" }, hoisted := rest.contains "hoisted=1" }
+  | _ => { s := { place := ⟨true, false, false⟩ } }
 
 def showVal (v : Val) : String := s!"{v.tok}:{v.len}"
 
@@ -58,10 +61,9 @@ def hasEv (evs : List (String × Int)) (a : String) : Option Int := (evs.find? (
 
 def deviates (sig : String) (dev : Bool) (out : String) : String := if dev then out ++ "\t#" ++ sig else out
 
-def step (s : St) (ws : List String) : St × String :=
+def stepS (s : St) (ws : List String) : St × String :=
   match ws with
   | ["begin"] => (s.apply .begin, "ok")
-  | ["commit"] => if s.work.isSome then (s.apply .commit, "ok") else (s, "bad-op")
   | ["rollback"] => if s.work.isSome then (s.apply .rollback, "ok") else (s, "bad-op")
   | ["dump"] =>
     let items := (sortByKey s.slots).map fun it => s!"{it.key}={showRead s.blobs it}"
@@ -106,6 +108,28 @@ def step (s : St) (ws : List String) : St × String :=
           else (s, "bad-op")
     | _, _ => (s, "bad-op")
   | _ => (s, "bad-op")
+
+def step (x : XSt) (ws : List String) : XSt × String :=
+  match ws with
+  | ["commit"] | ["commit", "retry=0"] => if x.s.work.isSome then (x.apply (.base .commit), "ok") else (x, "bad-op")
+  | ["commit", "retry=1"] => if x.s.work.isSome then (x.apply .commitAfterConflict, "ok") else (x, "bad-op")
+  | ["park"] => if x.s.work.isSome && x.parked.isNone then (x.apply .park, "ok") else (x, "bad-op")
+  | ["resume"] => if x.s.work.isNone && x.parked.isSome then (x.apply .resume, "ok") else (x, "bad-op")
+  | op :: k :: rest =>
+    if op == "upk" || op == "gupk" then
+      match x.s.work, k.toInt? with
+      | some w, some k =>
+        let present := hasKey w.slots k
+        match hasEv (events rest) "u" with
+        | some _ => (x.apply (.updateKey k (op == "gupk")), deviates "C19/op-result-deviates-from-map" (!present) "1")
+        | none => (x, deviates "C19/op-result-deviates-from-map" present "0")
+      | _, _ => (x, "bad-op")
+    else
+      let (s', out) := stepS x.s ws
+      ({ x with s := s' }, out)
+  | _ =>
+    let (s', out) := stepS x.s ws
+    ({ x with s := s' }, out)
 
 def run : IO Unit := runLoop reset step
 end Sop.Driver.C19
